@@ -117,7 +117,7 @@ ReuseVerdict(e) ==
        ELSE "ok"
 
 LibVerdict(e) ==
-    LET v == RoundsVerdict(e) IN
+    LET v == IF e.raised # "" THEN "Inv_C06_Partition_raised_" \o e.raised ELSE RoundsVerdict(e) IN
     IF v # "ok" THEN v
     ELSE IF ~Has(e, "reuse") THEN "ok"
     ELSE LET w == EjectVerdict(e) IN IF w # "ok" THEN w ELSE ReuseVerdict(e)
@@ -167,7 +167,7 @@ NotViaRepresentative(e) ==
         \E k \in 2 .. Len(us) : ~UmiClose(e.hd, us[k], RepOf(SubSeq(us, 1, k - 1)))
 
 Remark(e) ==
-    IF e.ev = "probe" THEN (IF e.raised # "" THEN "probe_" \o e.what \o "_raised_" \o e.raised ELSE "")
+    IF e.ev = "probe" THEN ""
     ELSE IF e.ev = "sched" /\ ~InRegion(e) THEN "outside_c07_region"
     ELSE IF NotViaRepresentative(e) THEN "divergence_member_not_within_hd_of_most_common_umi"
     ELSE IF PlainAmbiguous(e) THEN "plain_ambiguous_anchor"
@@ -175,9 +175,14 @@ Remark(e) ==
               /\ GroupsOf(e.runs[1].emits) # { SeqSet(e.model[m]) : m \in DOMAIN e.model } THEN "divergence_from_design_model"
     ELSE ""
 
+(* two copies of one molecule through the iterator with an input filter that removes nothing, fed as bare reads *)
+ProbeVerdict(e) == IF e.raised # "" THEN "Inv_C06_Partition_raised_" \o e.raised \o "_" \o e.what
+                   ELSE IF e.molecules # 1 THEN "Inv_C06_Exact_" \o e.what
+                   ELSE "ok"
+
 Verdict(e) == CASE e.ev = "lib"   -> LibVerdict(e)
                 [] e.ev = "sched" -> SchedVerdict(e)
-                [] e.ev = "probe" -> "ok"          \* observation only (see Remark)
+                [] e.ev = "probe" -> ProbeVerdict(e)
                 [] OTHER -> "unknown_event"
 
 TInit == l = 1
